@@ -1,6 +1,9 @@
 package exec
 
 import (
+	"crypto/sha256"
+	"encoding/base64"
+	"encoding/hex"
 	"encoding/json"
 	"errors"
 	"fmt"
@@ -783,7 +786,6 @@ func (m *Machine) runes(v value) []*sym.Term {
 			i++
 			continue
 		}
-		m.under = true
 		panic(pathEnd{kind: "outside", msg: "3/4-byte UTF-8 lead byte in symbolic string (outside the claimed alphabet)"})
 	}
 	return out
@@ -1242,14 +1244,44 @@ func init() {
 		"os.Environ":                fEnviron,
 		"os.OpenRoot":               fOpenRoot,
 		"strconv.ParseBool":         fParseBool,
+		"strconv.ParseInt":          fParseInt,
+		"strconv.ParseFloat":        fParseFloat,
+		"(*gopkg.in/yaml.v3.Node).ShortTag": fYamlShortTag,
 		"path/filepath.Base":        fFilepathBase,
 		"path/filepath.Dir":         fFilepathDir,
 		"path/filepath.Ext":         fFilepathExt,
 		"path/filepath.Join":        fFilepathJoin,
 		"unicode.IsLower":           fIsLower,
 		"regexp.MustCompile":        fRegexpMustCompile,
+		"(*encoding/base64.Encoding).EncodeToString": fB64EncodeToString,
+		"crypto/sha256.New": func(m *Machine, fr *frame, pos token.Pos, args []value) value {
+			return iface{t: m.shared.errorT, v: opaque{kind: "sha256", payload: &shaState{}}}
+		},
+		"crypto/sha256.Sum256": func(m *Machine, fr *frame, pos token.Pos, args []value) value {
+			sum := sha256.Sum256(concBytes(m, args[0], "sha256 input"))
+			return array(bytesValue(sum[:]))
+		},
+		"encoding/hex.EncodeToString": func(m *Machine, fr *frame, pos token.Pos, args []value) value {
+			return hex.EncodeToString(concBytes(m, args[0], "hex input"))
+		},
+		"sort.Strings": func(m *Machine, fr *frame, pos token.Pos, args []value) value {
+			xs := args[0].([]value)
+			for i := 1; i < len(xs); i++ {
+				for j := i; j > 0; j-- {
+					lt := m.lessTerm(xs[j], xs[j-1])
+					if !m.decide(lt) {
+						break
+					}
+					xs[j], xs[j-1] = xs[j-1], xs[j]
+				}
+			}
+			return nil
+		},
 		"(*regexp.Regexp).ReplaceAllStringFunc": fRegexpReplaceAllStringFunc,
 		"(encoding/json.Number).Int64": func(m *Machine, fr *frame, pos token.Pos, args []value) value {
+			if l, ok := args[0].(numLit); ok {
+				return m.parseIntLit(l, 64)
+			}
 			n, err := json.Number(concStr(args[0], "json.Number.Int64")).Int64()
 			if err != nil {
 				return tuple{int64(0), m.mkErr(err.Error(), false)}
@@ -1257,6 +1289,9 @@ func init() {
 			return tuple{n, iface{}}
 		},
 		"(encoding/json.Number).Float64": func(m *Machine, fr *frame, pos token.Pos, args []value) value {
+			if l, ok := args[0].(numLit); ok {
+				return m.parseFloatLit(l, 64)
+			}
 			f, err := json.Number(concStr(args[0], "json.Number.Float64")).Float64()
 			if err != nil {
 				return tuple{float64(0), m.mkErr(err.Error(), false)}
@@ -1364,10 +1399,235 @@ func fRegexpReplaceAllStringFunc(m *Machine, fr *frame, pos token.Pos, args []va
 	return mkStr(out)
 }
 
+// ---- abstract numeric literals (C04) ----
+//
+// numLit is the text of a number as a decoder hands it over (json.Number,
+// yaml.Node.Value): a string whose content is "the decimal spelling of this
+// symbolic integer / the shortest spelling of this symbolic double". Only the
+// number-parsing models look inside; they follow the documented contract of
+// strconv.ParseInt / ParseFloat (range check per bitSize, round-to-nearest-
+// even to float32 for bitSize 32).
+type numLit struct {
+	isFloat bool
+	T       *sym.Term // BV64 or FP64
+}
+
+func (m *Machine) parseIntLit(l numLit, bits int) value {
+	st := m.st
+	if l.isFloat {
+		return tuple{int64(0), m.mkErr("strconv.ParseInt: invalid syntax", false)}
+	}
+	if bits == 0 || bits == 64 {
+		return tuple{m.unsym(l.T, types.Int64), iface{}}
+	}
+	lo := st.BVC(64, uint64(-(int64(1) << (bits - 1))))
+	hi := st.BVC(64, uint64((int64(1)<<(bits-1))-1))
+	if m.decide(st.And(st.SLe(lo, l.T), st.SLe(l.T, hi))) {
+		return tuple{m.unsym(l.T, types.Int64), iface{}}
+	}
+	// out of range: the nearest bound and ErrRange
+	v := st.Ite(st.SLt(l.T, lo), lo, hi)
+	return tuple{m.unsym(v, types.Int64), m.mkErr("strconv.ParseInt: value out of range", false)}
+}
+
+func (m *Machine) parseFloatLit(l numLit, bits int) value {
+	st := m.st
+	x := l.T
+	if !l.isFloat {
+		x = st.FFromSBV(l.T)
+	}
+	if bits == 32 {
+		y := st.FTo64(st.FTo32(x))
+		if m.decide(st.And(st.FIsInf(y), st.Not(st.FIsInf(x)))) {
+			return tuple{m.unsym(y, types.Float64), m.mkErr("strconv.ParseFloat: value out of range", false)}
+		}
+		return tuple{m.unsym(y, types.Float64), iface{}}
+	}
+	return tuple{m.unsym(x, types.Float64), iface{}}
+}
+
+func fParseInt(m *Machine, fr *frame, pos token.Pos, args []value) value {
+	base := int(m.concretizeInt(args[1], 0, 36))
+	bits := int(m.concretizeInt(args[2], 0, 64))
+	if l, ok := args[0].(numLit); ok {
+		if base != 10 && base != 0 {
+			unsupported("ParseInt of a numeric literal in base %d", base)
+		}
+		return m.parseIntLit(l, bits)
+	}
+	s := m.concretise(args[0], "strconv.ParseInt").(string)
+	n, err := strconv.ParseInt(s, base, bits)
+	if err != nil {
+		return tuple{n, m.mkErr(err.Error(), false)}
+	}
+	return tuple{n, iface{}}
+}
+
+func fParseFloat(m *Machine, fr *frame, pos token.Pos, args []value) value {
+	bits := int(m.concretizeInt(args[1], 0, 64))
+	if l, ok := args[0].(numLit); ok {
+		return m.parseFloatLit(l, bits)
+	}
+	s := m.concretise(args[0], "strconv.ParseFloat").(string)
+	f, err := strconv.ParseFloat(s, bits)
+	if err != nil {
+		return tuple{f, m.mkErr(err.Error(), false)}
+	}
+	return tuple{f, iface{}}
+}
+
+// fYamlShortTag: (*yaml.Node).ShortTag for nodes with an explicit tag.
+func fYamlShortTag(m *Machine, fr *frame, pos token.Pos, args []value) value {
+	p := args[0].(*value)
+	if p == nil {
+		panic(targetPanic{msg: "nil *yaml.Node"})
+	}
+	st := (*p).(structure)
+	nt := m.shared.yamlNodeT
+	if nt == nil {
+		unsupported("yaml.Node type not loaded")
+	}
+	tag := ""
+	for i := 0; i < nt.NumFields(); i++ {
+		if nt.Field(i).Name() == "Tag" {
+			tag = concStr(st[i], "yaml.Node.Tag")
+		}
+	}
+	if tag == "" {
+		unsupported("yaml.Node without explicit tag (tag resolution is the parser's job)")
+	}
+	n := yaml.Node{Kind: yaml.ScalarNode, Tag: tag}
+	return n.ShortTag()
+}
+
+// ---- encoding/base64, crypto/sha256, encoding/hex ----
+
+var b64Encodings = map[string]*base64.Encoding{
+	"StdEncoding": base64.StdEncoding, "URLEncoding": base64.URLEncoding,
+	"RawStdEncoding": base64.RawStdEncoding, "RawURLEncoding": base64.RawURLEncoding,
+}
+
+// foreignGlobalInit gives package-level variables of dependencies that the
+// code under test reads a meaningful identity (dependency init is not run).
+func foreignGlobalInit(pkgPath, name string) (value, bool) {
+	if pkgPath == "encoding/base64" {
+		if e, ok := b64Encodings[name]; ok {
+			return opaquePtr("b64enc", &b64enc{name: name, enc: e}), true
+		}
+	}
+	return nil, false
+}
+
+type b64enc struct {
+	name string
+	enc  *base64.Encoding
+}
+
+// fB64EncodeToString: the real encoder on concrete bytes; on symbolic bytes an
+// exact bit-level model of RFC 4648 for the four predefined encodings.
+func fB64EncodeToString(m *Machine, fr *frame, pos token.Pos, args []value) value {
+	e := opaqueOf(args[0], "b64enc").(*b64enc)
+	in := args[1].([]value)
+	conc := make([]byte, len(in))
+	allConc := true
+	for i, b := range in {
+		c, ok := b.(uint8)
+		if !ok {
+			allConc = false
+			break
+		}
+		conc[i] = c
+	}
+	if allConc {
+		return e.enc.EncodeToString(conc)
+	}
+	st := m.st
+	url := strings.Contains(e.name, "URL")
+	pad := !strings.HasPrefix(e.name, "Raw")
+	c8 := func(n uint64) *sym.Term { return st.BVC(8, n) }
+	encode := func(v *sym.Term) *sym.Term {
+		c62, c63 := uint64('+'), uint64('/')
+		if url {
+			c62, c63 = '-', '_'
+		}
+		return st.Ite(st.ULt(v, c8(26)), st.Add(c8('A'), v),
+			st.Ite(st.ULt(v, c8(52)), st.Add(c8('a'), st.Sub(v, c8(26))),
+				st.Ite(st.ULt(v, c8(62)), st.Add(c8('0'), st.Sub(v, c8(52))),
+					st.Ite(st.Eq(v, c8(62)), c8(c62), c8(c63)))))
+	}
+	bt := make([]*sym.Term, len(in))
+	for i, b := range in {
+		bt[i] = m.term(b)
+	}
+	var out []*sym.Term
+	for i := 0; i < len(bt); i += 3 {
+		b0 := bt[i]
+		b1, b2 := c8(0), c8(0)
+		n := 1
+		if i+1 < len(bt) {
+			b1 = bt[i+1]
+			n = 2
+		}
+		if i+2 < len(bt) {
+			b2 = bt[i+2]
+			n = 3
+		}
+		out = append(out, encode(st.LShr(b0, c8(2))))
+		out = append(out, encode(st.BOr(st.Shl(st.BAnd(b0, c8(3)), c8(4)), st.LShr(b1, c8(4)))))
+		if n >= 2 {
+			out = append(out, encode(st.BOr(st.Shl(st.BAnd(b1, c8(15)), c8(2)), st.LShr(b2, c8(6)))))
+		} else if pad {
+			out = append(out, c8('='))
+		}
+		if n == 3 {
+			out = append(out, encode(st.BAnd(b2, c8(63))))
+		} else if pad {
+			out = append(out, c8('='))
+		}
+	}
+	return mkStr(out)
+}
+
+func concBytes(m *Machine, v value, what string) []byte {
+	in, _ := v.([]value)
+	out := make([]byte, len(in))
+	for i, b := range in {
+		c, ok := m.concretise(b, what).(uint8)
+		if !ok {
+			unsupported("%s: byte of type %T", what, b)
+		}
+		out[i] = c
+	}
+	return out
+}
+
+func bytesValue(b []byte) []value {
+	out := make([]value, len(b))
+	for i, c := range b {
+		out[i] = c
+	}
+	return out
+}
+
+type shaState struct{ buf []byte }
+
 func (m *Machine) opaqueMethod(o opaque, name string, args []value) value {
 	switch name {
 	case "Close":
 		return iface{}
+	}
+	if o.kind == "sha256" {
+		sh := o.payload.(*shaState)
+		switch name {
+		case "Write":
+			b := concBytes(m, args[0], "sha256 input")
+			sh.buf = append(sh.buf, b...)
+			return tuple{len(b), iface{}}
+		case "Sum":
+			sum := sha256.Sum256(sh.buf)
+			prefix, _ := args[0].([]value)
+			return append(append([]value{}, prefix...), bytesValue(sum[:])...)
+		}
 	}
 	unsupported("method %s on opaque %s", name, o.kind)
 	return nil
